@@ -81,3 +81,10 @@ Print Assumptions C14_all_freed.
 Theorem C14_cycle_leaks : forall cs a, path cs a a -> ~ freed cs a.
 Proof. exact cycle_never_freed. Qed.
 Print Assumptions C14_cycle_leaks.
+
+(* (6) the bookkeeping that makes (4) possible is itself bounded: the registry holds at most one (weak) entry per
+   opcode of the pickle being generated and is emptied by every reset - a long-running fuzzing process does not
+   accumulate it *)
+Theorem C14_registry_bound : forall v ts h, length (run_mut v h ts) <= length ts.
+Proof. exact run_mut_bound. Qed.
+Print Assumptions C14_registry_bound.
